@@ -1666,6 +1666,35 @@ def r_json_load(E):
             res.findings.append(Finding("R-JSON-LOAD", "unknown sections dropped",
                                         "sections whose class is unknown are silently skipped instead of failing", rel,
                                         src_line, "json_to_system"))
+    # nothing read from the file before the upgrade is used after it (a list of sections, a count, a lookup table taken
+    # from the 9.x layout misses whatever the handlers rename or add)
+    if upg is not None:
+        top = upg
+        while getattr(top, "_parent", None) is not fn and getattr(top, "_parent", None) is not None:
+            top = top._parent
+        if top in fn.body:
+            param = fn.args.args[0].arg
+            after = fn.body[fn.body.index(top) + 1:]
+            # (a name the upgrade itself rebinds — the dict being upgraded, under whatever name — is not a snapshot)
+            rebound_after = {t.id for st in [top] + after for a in ast.walk(st) if isinstance(a, (ast.Assign, ast.For, ast.comprehension))
+                             for t in ast.walk(a.targets[0] if isinstance(a, ast.Assign) else a.target) if isinstance(t, ast.Name)}
+            for st in fn.body[:fn.body.index(top)]:
+                for a in ast.walk(st):
+                    if not (isinstance(a, ast.Assign) and any(isinstance(x, ast.Name) and x.id == param for x in ast.walk(a.value))):
+                        continue
+                    for t in a.targets:
+                        if not isinstance(t, ast.Name) or t.id in rebound_after or t.id == param:
+                            continue
+                        res.instances += 1
+                        use = next((x for st2 in after for x in ast.walk(st2)
+                                    if isinstance(x, ast.Name) and x.id == t.id and isinstance(x.ctx, ast.Load)), None)
+                        if use is not None:
+                            res.findings.append(Finding(
+                                "R-JSON-LOAD", f"{t.id} read before the upgrade, used after",
+                                f"json_to_system computes `{t.id}` from the file ({norm(a.value)[:60]}) before the version "
+                                f"upgrade handlers run and uses it afterwards (line {use.lineno}): for a 9.x file it "
+                                f"describes the old layout (a 'Hardware' section, no 'Device' section), so whatever is "
+                                f"driven by it skips the renamed objects", rel, a.lineno, "json_to_system"))
     # calculated attributes reset
     res.instances += 1
     reset = [n for n in ast.walk(fn) if isinstance(n, ast.For) and "calculated_attributes" in norm(n.iter)]
@@ -1839,7 +1868,33 @@ def r_noop(E):
                             f"an element already present) are silently dropped", pm.classes[k].path, f.lineno, f"{k}.{f.name}"))
                     else:
                         res.undecided.append(f"{k}.{f.name}: equality of link lists overridden, semantics not recognised")
-    res.floor = 2
+    # … and for values, the `==` of the value classes: it must *answer* for two values of the same class. An __eq__ that
+    # raises on a same-class operand (two hourly series of different lengths) turns the edit that replaces one by the
+    # other into an error instead of a change
+    from ..paths import enumerate_paths as _ep2, path_formula as _pf2, consistent as _cons2, parse as _parse2
+    for cn in sorted(pm.classes):
+        if "ExplainableObject" not in pm.mro(cn):
+            continue
+        f = next((m for m in pm.own_methods(cn) if m.name == "__eq__"), None)
+        if f is None or len(f.args.args) < 2:
+            continue
+        res.instances += 1
+        other = f.args.args[1].arg
+        same = _parse2(f"isinstance({other}, {cn})")
+        for path in _ep2(f, lambda n: isinstance(n, ast.Raise)):
+            if path.end != "raise":
+                continue
+            pf = _pf2(path.conds, f)
+            from ..paths import implies as _imp2
+            if _imp2(pf, same):
+                res.findings.append(Finding(
+                    "R-NOOP", f"{cn}.__eq__ raises for a {cn}",
+                    f"{cn}.__eq__ raises on a path where the other operand is a {cn} too: ModelingUpdate's no-op test "
+                    f"`old_value == new_value` then refuses the edit that replaces one such value by another (a traffic "
+                    f"series replaced by a longer one: `ValueError: … values of same length`) instead of applying it",
+                    pm.classes[cn].path, path.stmts[-1].lineno if path.stmts else f.lineno, f"{cn}.__eq__"))
+                break
+    res.floor = 4
     return res
 
 
